@@ -315,6 +315,11 @@ def gen_program(rng, dialect, nlines=None, equal_runs=True):
                 lines.append((min(no, maxno), gen_payload(rng, dialect, 251, same_len=ln)))
                 no += step
             i += k
+        elif rng.chance(0.08):
+            # an empty line (BB4W/SDL write these for blank lines)
+            lines.append((min(no, maxno), b''))
+            no += step
+            i += 1
         else:
             lines.append((min(no, maxno), gen_payload(rng, dialect, 251)))
             no += step
